@@ -662,6 +662,17 @@ def m_vec_into_iter(ex, n, a, f):
     return IterV(list(v.cells), by_value=True)
 
 
+@model(r'^std::vec::Vec::<.*>::drain::<std::ops::RangeFull>$')
+def m_vec_drain_full(ex, n, a, f):
+    # v.drain(..): every element is moved into the iterator, the vector is left empty
+    v = ex.force(ex.deref(a[0]))
+    if not isinstance(v, VecV):
+        raise Unsupported(f"drain of {v!r}"[:100])
+    cells = list(v.cells)
+    del v.cells[:]
+    return IterV(cells, by_value=True)
+
+
 @model(r'^<&(mut )?std::vec::Vec<.*> as std::iter::IntoIterator>::into_iter$', r'^<&(mut )?\[.*\] as std::iter::IntoIterator>::into_iter$')
 def m_vecref_into_iter(ex, n, a, f):
     return IterV(as_cells(ex, a[0]))
